@@ -37,6 +37,9 @@ func vfServerFlags(cfg vfPairCfg) []string {
 	if cfg.Directory {
 		a = append(a, "-d")
 	}
+	if cfg.Fork {
+		a = append(a, "-f")
+	}
 	if cfg.Bufsize > 0 {
 		a = append(a, "-B", strconv.FormatInt(cfg.Bufsize, 10))
 	}
@@ -296,6 +299,10 @@ func vfGenC01Sess(rt *rapid.T) vfC01SessCase {
 	}
 	cs.Sess = vfGenSessOpts(rt, total)
 	cs.Windows = rapid.IntRange(0, 4).Draw(rt, "client_windows") == 0
+	if cs.Sess.Tunnel && rapid.IntRange(0, 2).Draw(rt, "fork") == 0 {
+		cs.Cfg.Fork = true // background mode needs the tunnel
+		cs.Cfg.Progress = false
+	}
 	return cs
 }
 
@@ -307,6 +314,9 @@ func TestVF_C01Session(t *testing.T) {
 		labels := append(vfPairLabels(cs.Cfg), "session_engine")
 		if cs.Sess.Tunnel {
 			labels = append(labels, "tunnel")
+		}
+		if cs.Cfg.Fork {
+			labels = append(labels, "background_fork_mode")
 		}
 		labels = append(labels, fmt.Sprintf("relay_hops_%d", cs.Sess.Relays))
 		if cs.Windows {
